@@ -137,6 +137,17 @@ CHECKS["C16"] = dict(
     note=NOTE_BASE + "Modelled: callbacks registered/removed between messages; coroutine callbacks as 'run afterwards'.",
     technique="Coq proof (invariant over message streams; log filtering lemmas) + correspondence",
     design="4/C16")
+CHECKS["C19"] = dict(
+    text="Theorems over a model of the asyncio runtime as the transports use it (one send task per routed message, FIFO ready queue, FIFO-fair "
+         "Lock, adversarial I/O completion incl. never): stream_is_ordered_prefix_of_routed for EVERY schedule, any number of connections and "
+         "messages, TCP and TTY style (a 9-clause invariant proved preserved by every move), everything_routed_is_eventually_out, and the "
+         "isolation theorems (a task touches and depends on only its own connection; completions are local). The runtime model is VALIDATED, not "
+         "verified: the real TCP-server, TCP-client and TTY handlers run on a real event loop stepped one iteration at a time with fake writers "
+         "whose awaitables the schedule releases; all schedules up to a depth are enumerated and outputs, ready-queue length and pending I/O are "
+         "compared with the model after every move.",
+    note=NOTE_BASE + "Proof over a modelled runtime: asyncio scheduling, Lock fairness and future wake-ups are modelled and validated by exhaustive bounded schedule correspondence.",
+    technique="Coq proof (scheduler invariant over all schedules) over a runtime model validated by exhaustive schedule exploration of the real event loop",
+    design="4/C19")
 PENDING = {}
 props = [json.loads(l) for l in open(os.path.join(V, "properties.jsonl"))]
 checks, na = [], []
